@@ -187,6 +187,18 @@ Theorem read_never_waits_past_deadline :
 Proof. exact net_read_loop_deadline. Qed.
 Print Assumptions read_never_waits_past_deadline.
 
+(* the only ways a read can fail: end of stream, deadline (and, without a deadline, a script that
+   never delivers - the model's stand-in for blocking forever) *)
+Theorem read_fails_only_with_eof_or_timeout :
+  forall expiration evs stream count s now,
+  match net_read_loop expiration evs stream count s now with
+  | Ok _ => True
+  | Lib e => e = neEOF \/ e = neTimeout
+  | Internal e => e = niScriptEnd /\ expiration = None
+  end.
+Proof. exact net_read_loop_errors. Qed.
+Print Assumptions read_fails_only_with_eof_or_timeout.
+
 Theorem send_all_in_order :
   forall exp evs data now sent evs' now',
   net_write_loop exp evs data [] now = Ok (sent, evs', now') -> sent = data.
